@@ -384,12 +384,68 @@ def classify_ns(ev, msg, stale):
     return sorted(keys)
 
 
+MC_EXEC = os.path.join(ROOT, "spec/mc/MC_Exec.tla")
+
+
+def exec_model(res, wd, quick, rng):
+    """MC: ExecImpl (the iterative template executor with its explicit stacks, direct-template and single-text-child short cuts) = the
+    recursive definition of instantiation, balanced stacks, termination, for every program of <= N elements.  GEN: one program per SET of
+    executor transitions taken (VIEW), of which a stratified sample is rendered as real stylesheets (oracle there: XSLTSem)."""
+    n = 5
+    cfg = os.path.join(wd, "exec_mc.cfg")
+    open(cfg, "w").write("SPECIFICATION Spec\nCONSTANTS N = %d\nINVARIANT Correct\nINVARIANT Balanced\nPROPERTY Terminates\nCHECK_DEADLOCK FALSE\n" % n)
+    r = vlib.tlc_mc(MC_EXEC, cfg, name="c01exec", timeout=3000, xmx="12g", extra=["-noGenerateSpecTE"])
+    res.add_mc(r, "MC_Exec (ExecImpl: the iterative executor's output = the recursive definition, every stack balanced, termination; every program <= %d elements)" % n)
+    gcfg = os.path.join(wd, "exec_gen.cfg")
+    open(gcfg, "w").write("SPECIFICATION SpecSig\nCONSTANTS N = %d\nVIEW SigView\nCHECK_DEADLOCK FALSE\n" % n)
+    dump = os.path.join(wd, "exec_gen")
+    g = vlib.tlc(MC_EXEC, gcfg, workers=1, name="c01execgen", timeout=3000, extra=["-noGenerateSpecTE", "-dump", dump])
+    if not g["ok"]:
+        raise vlib.Infra("MC_Exec program export failed: " + g["out"][-2000:])
+    progs = []
+    with open(dump + ".dump") as f:            # only the launched programs (s.pc = "sig"); the build states are skipped unparsed
+        block = []
+        def flush():
+            if block and any('"sig"' in l for l in block):
+                st = next(tlaparse.read_dump_lines(block, only={"P"}))
+                progs.append(st["P"])
+        for line in f:
+            if line.startswith("State "):
+                flush(); block = [line]
+            else:
+                block.append(line)
+        flush()
+    os.remove(dump + ".dump")
+    if len(progs) < 1000:
+        raise vlib.Infra("MC_Exec exported only %d programs" % len(progs))
+    progs.sort(key=lambda p: json.dumps(p, sort_keys=True, default=list))
+    # stratified by the (kind, parent kind, only child?) pairs a program contains: one program per stratum first, then a seeded sample
+    def stratum(p):
+        el = p["el"]
+        return frozenset((e["kind"], el[e["parent"] - 1]["kind"] if e["parent"] else "-", len(el[e["parent"] - 1]["kids"]) == 1 if e["parent"] else False,
+                          len(e["nodes"]), bool(e["b"])) for e in el)
+    by = {}
+    for p in progs:
+        by.setdefault(stratum(p), []).append(p)
+    budget = 260 if quick else 4000
+    keys = sorted(by, key=lambda k: sorted(map(str, k)))
+    rng.shuffle(keys)
+    pick = [rng.choice(by[k]) for k in keys[:budget]]
+    res.notes["exec_programs_exported"] = len(progs)
+    res.notes["exec_strata"] = len(by)
+    res.notes["exec_programs_replayed"] = len(pick)
+    return pick
+
+
 def run(res, tier, seed):
     rng = random.Random(seed)
     quick = tier == "quick"
     wd = vlib.workdir("c01-%d" % os.getpid())
     c02.mc_laws(res, tier, wd)
+    exec_progs = exec_model(res, wd, quick, random.Random(seed + 17))
     docs = c02.make_docs(rng, 6 if quick else 40)
+    docs.append(xslgen.exec_doc(5))
+    exec_doc_ix = len(docs) - 1
     flats = [xdm.flatten(t, c02.ID_ATTRS) for t in docs]
     ncases = 700 if quick else 20000
     cases, metas = [], []
@@ -413,19 +469,29 @@ def run(res, tier, seed):
             ss = xslgen.multidoc_stylesheet(rng)      # the multi-document family (document(), keys / id / numbering / sorting in loaded documents)
         else:
             ss = xslgen.XslGen(rng).stylesheet()
-        d = rng.randrange(len(docs))
+        d = rng.randrange(len(docs) - 1)                  # (the last document is the executor family's)
         if (fam == "rtfcompare" or (not fam and k % 10 == 6 and k % 5 != 4)) and rng.random() < 0.8:
             d = 3                                     # the corpus document whose text values look like numbers
         cdir = os.path.join(wd, "case%d" % k); os.makedirs(cdir)
         for fname, text in xslgen.render_modules(ss).items():
             open(os.path.join(cdir, fname), "w").write(text)
         open(os.path.join(cdir, "in.xml"), "w").write(c02.doc_xml(docs[d]))
-        aux = [rng.randrange(len(docs)) for _ in range(ss.get("ndocs", 0))]
+        aux = [rng.randrange(len(docs) - 1) for _ in range(ss.get("ndocs", 0))]
         for j, a in enumerate(aux):
             open(os.path.join(cdir, "d%d.xml" % (j + 2)), "w").write(c02.doc_xml(docs[a]))
         # hook H2: the scoping family and every third other case also record every operation of the engine's variable stack
         cases.append({"id": k, "dir": cdir, "trace": "none", "select": False, "vstack": bool(fam == "scoping" or (not fam and (k % 5 == 4 or k % 3 == 0)))})
         metas.append((ss, d, aux))
+    # the EXECUTOR family: programs exported from MC_Exec (one per set of executor transitions), on the document built for them
+    for prog in exec_progs:
+        k = len(cases)
+        ss = xslgen.exec_stylesheet(prog)
+        cdir = os.path.join(wd, "case%d" % k); os.makedirs(cdir)
+        for fname, text in xslgen.render_modules(ss).items():
+            open(os.path.join(cdir, fname), "w").write(text)
+        open(os.path.join(cdir, "in.xml"), "w").write(c02.doc_xml(docs[exec_doc_ix]))
+        cases.append({"id": k, "dir": cdir, "trace": "none", "select": False, "vstack": False})
+        metas.append((ss, exec_doc_ix, []))
     exe = vlib.build_harness("xslt")
     nsh = vlib.NCPU
     procs = []
